@@ -8,25 +8,48 @@ the proof cell's 256-bit field); soundness takes a LOCAL no-collision hypothesis
 -/
 import TonVerif.Proofs.Merkle
 import TonVerif.Proofs.Binding
+import TonVerif.Proofs.PruneWF
 import TonVerif.Proofs.OrdCell
 
 namespace TonVerif.Properties.C11
 open TonVerif TonVerif.Model TonVerif.Proofs.CellSpec TonVerif.Proofs.Prune TonVerif.Proofs.Merkle
 
-/-- COMPLETENESS (generic check and block-header check). Let `t` be any tree with spec values `s`, `p` ANY pruning
-of it (`PruneRel H 1 t p`: any set of subtrees replaced by pruned branches, deeper levels under inner Merkle cells),
-and wrap `p` in the Merkle proof cell naming `t`'s level-0 hash and depth.  If that proof is a spec-valid tree (sizes,
-depth ≤ 1023) it can be constructed, `check_proof(proof, hash t)` returns, its only child is the object of `p`, and
-`check_block_header_proof(proof[0], hash t)` returns.  No assumption on `H` except that the root hash is 32 bytes. -/
+/-- COMPLETENESS (generic check and block-header check). Let `t` be any spec-valid tree of level 0 (a block, a shard
+state, ...; inner Merkle cells and the pruned branches below them allowed) with spec values `s`, and `p` ANY pruning of
+it (`PruneRel H 1 t p`: any set of subtrees replaced by pruned branches, deeper levels under inner Merkle cells).  Wrap
+`p` in the Merkle proof cell naming `t`'s level-0 hash and depth.  Then that proof can be constructed,
+`check_proof(proof, hash t)` returns, its only child is the object of `p`, and
+`check_block_header_proof(proof[0], hash t)` returns.  Validity of the proof tree is DERIVED (`prune_treeWF`), not
+assumed.  Remaining side conditions: the root hash is 32 valid bytes (true of SHA-256; nothing else about `H` is used)
+and `depth t ≤ 1022` (the proof cell is one deeper than `t`, and cells deeper than 1023 cannot be built). -/
 theorem c11_complete (H : Bytes → Bytes) (t p : Cell) (s : Spec.SInfo)
-    (hs : specInfo H t = some s) (hrel : PruneRel H 1 t p)
-    (wfp : TreeWF H (merkleProofCell (s.hashAt 0) (s.depthAt 0) p))
-    (h32 : (s.hashAt 0).length = 32 ∧ Bytes.WF (s.hashAt 0)) (hd : s.depthAt 0 < 65536) :
+    (wft : TreeWF H t) (hs : specInfo H t = some s) (hlev : s.mask = 0) (hrel : PruneRel H 1 t p)
+    (h32 : (s.hashAt 0).length = 32 ∧ Bytes.WF (s.hashAt 0)) (hd : s.depthAt 0 ≤ 1022) :
     ∃ c r, PCell.ofCell H (merkleProofCell (s.hashAt 0) (s.depthAt 0) p) = some c ∧ c.refs = [r] ∧
       PCell.ofCell H p = some r ∧
       checkProof c (s.hashAt 0) = true ∧ checkBlockHeaderProof r (s.hashAt 0) = true := by
   obtain ⟨sp, hsp, hinv⟩ := prune_invariant H 1 t p s hrel hs
   obtain ⟨h0, d0, _⟩ := hinv 0 (by omega)
+  -- the pruned tree and the proof cell over it are spec-valid
+  obtain ⟨wfc, hle⟩ := TonVerif.Proofs.PruneWF.prune_treeWF H 1 t p s (Nat.le_refl _) wft hs (by rw [hlev]; decide) hrel
+  have wfp : TreeWF H (merkleProofCell (s.hashAt 0) (s.depthAt 0) p) := by
+    unfold merkleProofCell
+    rw [TreeWF]
+    refine ⟨⟨wfc, trivial⟩, .merkleProof, [sp], by decide, by simp [specInfos, hsp], ?_⟩
+    have hmask7 := TonVerif.Proofs.PruneWF.treeWF_mask_le H p sp wfc hsp
+    refine ⟨?_, by simp, ?_, ?_, by simp, by simp, by simp, by simp⟩
+    · rw [length_bytesToBits, mproofData_length _ _ h32.1]; omega
+    · intro c hc; simp at hc; subst hc; exact hmask7
+    · intro _ l
+      rw [node_plain H .merkleProof _ _ (by decide)]
+      show Spec.plainDepthAt .merkleProof [sp] _ l ≤ 1023
+      obtain ⟨L, _, _, _, e⟩ := TonVerif.Proofs.PruneWF.plainDepthAt_top .merkleProof [sp]
+        (Spec.nodeMask .merkleProof (bytesToBits (mproofData (s.hashAt 0) (s.depthAt 0))) [sp]) l
+      rw [e, TonVerif.Proofs.PruneWF.depthOver_single]
+      have h1 := hle sp hsp (L + Spec.Kind.mu .merkleProof)
+      have h2 := TonVerif.Proofs.PruneWF.depth_level0 H t s hs hlev (L + Spec.Kind.mu .merkleProof)
+      omega
+  have hd : s.depthAt 0 < 65536 := by omega
   -- the proof cell and its child can be constructed
   obtain ⟨i, si, hi, hsi, hag⟩ := tree_agrees H _ wfp
   unfold merkleProofCell at hi
@@ -37,9 +60,6 @@ theorem c11_complete (H : Bytes → Bytes) (t p : Cell) (s : Spec.SInfo)
     have := construct_fields H _ _ _ _ hi
     exact ⟨this.1, this.2.1⟩
   -- the child reports the spec values of `p`, which are those of `t` at level 0
-  have wfc : TreeWF H p := by
-    rw [merkleProofCell, TreeWF] at wfp
-    exact wfp.1.1
   obtain ⟨ip, sp', hip, hsp', hagp⟩ := tree_agrees H p wfc
   rw [hsp] at hsp'; cases hsp'
   have hrinfo : r.info = ip := by
@@ -396,32 +416,19 @@ theorem leafA_nodeWF : NodeWF toyH .ordinary [true, false] [] := by
   rw [TonVerif.Proofs.OrdCell.plainDepthAt_zero]
   decide
 
-example : specInfo toyH leafA = some sLeafA ∧ PruneRel toyH 1 leafA leafA ∧
-    TreeWF toyH (merkleProofCell (sLeafA.hashAt 0) (sLeafA.depthAt 0) leafA) ∧
-    ((sLeafA.hashAt 0).length = 32 ∧ Bytes.WF (sLeafA.hashAt 0)) ∧ sLeafA.depthAt 0 < 65536 := by
+example : TreeWF toyH leafA ∧ specInfo toyH leafA = some sLeafA ∧ sLeafA.mask = 0 ∧ PruneRel toyH 1 leafA leafA ∧
+    ((sLeafA.hashAt 0).length = 32 ∧ Bytes.WF (sLeafA.hashAt 0)) ∧ sLeafA.depthAt 0 ≤ 1022 := by
   have hlen : (sLeafA.hashAt 0).length = 32 := by
     show (Spec.plainHashAt toyH .ordinary [true, false] [] (Spec.nodeMask .ordinary [true, false] []) 0).length = 32
     simp only [Spec.plainHashAt, toyH, List.length_take, List.length_append, List.length_replicate]
     omega
   have hwf : Bytes.WF (sLeafA.hashAt 0) := by decide +kernel
-  refine ⟨by simp [leafA, sLeafA, specInfo, specInfos, kindOf], ?_, ?_, ⟨hlen, hwf⟩, by decide +kernel⟩
+  refine ⟨?_, by simp [leafA, sLeafA, specInfo, specInfos, kindOf], rfl, ?_, ⟨hlen, hwf⟩, by decide +kernel⟩
+  · unfold leafA
+    rw [TreeWF]
+    exact ⟨trivial, .ordinary, [], by decide, by simp [specInfos], leafA_nodeWF⟩
   · unfold leafA
     rw [PruneRel]
     exact Or.inr ⟨.ordinary, [], by decide, rfl, by rw [PruneRels]⟩
-  · unfold merkleProofCell leafA
-    rw [TreeWF]
-    refine ⟨⟨?_, trivial⟩, .merkleProof, [sLeafA], by decide, by simp [specInfos, specInfo, kindOf, sLeafA], ?_⟩
-    · rw [TreeWF]
-      exact ⟨trivial, .ordinary, [], by decide, by simp [specInfos], leafA_nodeWF⟩
-    · have hm : Spec.nodeMask .merkleProof (bytesToBits (mproofData (sLeafA.hashAt 0) (sLeafA.depthAt 0))) [sLeafA] = 0 := by
-        decide +kernel
-      refine ⟨?_, by simp, ?_, ?_, by simp, by simp, by simp, by simp⟩
-      · rw [length_bytesToBits, mproofData_length _ _ hlen]; omega
-      · intro c hc; simp at hc; subst hc; decide +kernel
-      · intro _ l
-        rw [node_plain toyH .merkleProof _ _ (by decide)]
-        simp only [hm]
-        rw [TonVerif.Proofs.OrdCell.plainDepthAt_zero]
-        decide +kernel
 
 end TonVerif.Properties.C11
